@@ -6,7 +6,8 @@ from props.graphfacts import conclude, replay, run_graph_property  # noqa: F401
 
 THEOREMS = ["Rva.meetOver_sound", "Rva.meet_sound_left", "Rva.meet_sound_right", "Rva.erase_sound", "Rva.fold_const_sound", "Rva.fold_imm_sound", "Rva.fold_ors_sound", "Rva.fold_ors_right_sound", "Rva.operate_rv32",
             "Rva.plain_transfer_sound", "Rva.mathResult_sound", "Rva.genReg_sound", "Rva.mathOpOf_spec",
-            "Rva.scalarOpOf_spec", "Rva.plain_regOut", "Rva.ecall_table_matches_rars"]
+            "Rva.scalarOpOf_spec", "Rva.plain_regOut", "Rva.ecall_table_matches_rars",
+            "Rva.quiet_transfer_sound", "Rva.exec_sound", "Rva.goodFactsB_sound"]
 
 
 def oracle(src, blk, rng):
@@ -24,10 +25,35 @@ def oracle(src, blk, rng):
 
 
 def run(res, tier, seed):
-    proof_ok = proof_stage(res, "Rva.Proofs.C01Transfer", THEOREMS, extra_modules=["Rva.Proofs.C01", "Rva.Proofs.C08", "Rva.Proofs.Tables"])
+    proof_ok = proof_stage(res, "Rva.Proofs.C01Path", THEOREMS, extra_modules=["Rva.Proofs.C01Transfer", "Rva.Proofs.C01", "Rva.Proofs.C08", "Rva.Proofs.Tables"])
     res.cov["rule"] = ("generated convention-respecting programs + corpus; 4 concrete RV32IM executions per "
                        "program from random initial states; every constant / address / entry-relative claim the "
                        "real analyzer attached to each reached node (registers and stack slots) is evaluated "
                        "against the machine state; facts also diffed against the Lean model")
     first, corr = run_graph_property(res, tier, seed, "cfg,facts", oracle, sloppy_choices=(0, 0, 0.05))
+    # hypothesis of `exec_sound` (`GoodFacts`: the finished facts are a fixed point of meet and
+    # transfer over the visited nodes, maps well formed, no claim relative to x0) is decided by the
+    # model on its own result for every generated program (stage `good`, `goodFactsB_sound`); the
+    # model's facts are the real facts by the correspondence above
+    import random
+    from common import DRIVER, run_lines_isolated
+    from pipeline import pipe_req
+    from props.graphfacts import gen_programs
+    srcs = gen_programs(random.Random(seed), 120 if tier == "quick" else 2500, (0, 0, 0.05))
+    good = run_lines_isolated(DRIVER, [pipe_req("good", [("m.s", s)]) for s in srcs], chunk=100, timeout=120)
+    tally = {"holds": 0, "not_applicable": 0, "fails": 0}
+    bad_src = None
+    for s, blk in zip(srcs, good):
+        line = next((l for l in blk if l.startswith("GOODFACTS")), "")
+        if line.startswith("GOODFACTS true final-facts-are-these=true"):
+            tally["holds"] += 1
+        elif " n/a " in line:
+            tally["not_applicable"] += 1
+        else:
+            tally["fails"] += 1
+            bad_src = bad_src or s
+    res.cov.setdefault("input_distribution", {})["exec_sound_hypothesis"] = tally
+    if bad_src is not None and first is None and corr is None:
+        corr = {"stage": "good (hypothesis GoodFacts of theorem exec_sound does not hold for the analysis "
+                         "result)", "source": bad_src, "impl_vs_model": []}
     conclude(res, "C01", first, corr, proof_ok, "no false claim found")
